@@ -163,6 +163,7 @@ structure Side where
   r : Array T_treeReverseCodec
   lc : T_lengthCodec
   dc : T_distCodec
+  lit : T_literalCodec
 
 def mkSide : Side :=
   { t := #[mkTree 3, mkTree 6, mkTree 8, mkTree 1],
@@ -170,7 +171,8 @@ def mkSide : Side :=
     lc := { choice := #[1024#16, 1024#16], low := Array.replicate 16 (mkTree 3), mid := Array.replicate 16 (mkTree 3), high := mkTree 8 },
     dc := { posSlotCodecs := Array.replicate 4 (mkTree 6),
             posModel := (Array.range 10).map (fun i => mkRTree (((4 + i) / 2) - 1)),
-            alignCodec := mkRTree 4 } }
+            alignCodec := mkRTree 4 },
+    lit := { probs := Array.replicate (0x300 * 4) 1024#16 } }
 
 def encObs (err : Go.Err) (g : T_rangeEncoder) : String :=
   s!"{errName err} {g.low.toNat} {g.nrange.toNat} {g.cacheLen.toInt} {g.lbw.BW.out.length}"
@@ -193,32 +195,42 @@ def codecScript (limit : Nat) (steps : List (List String)) : List String := Id.r
     | ["te", k, v] =>
       match treeCodec_Encode fuel (es.t.getD (nat k) default) g (u32 v) with
       | .ok (err, tc, g') => g := g'; es := { es with t := es.t.setIfInBounds (nat k) tc }; out := out.push (encObs err g)
-      | .panic m => out := out.push ("panic:" ++ m); break
+      | .panic m => return (out.push ("panic:" ++ m)).toList
       | .fuel => out := out.push "fuel"; break
     | ["re", k, v] =>
       match treeReverseCodec_Encode fuel (es.r.getD (nat k) default) (u32 v) g with
       | .ok (err, tc, g') => g := g'; es := { es with r := es.r.setIfInBounds (nat k) tc }; out := out.push (encObs err g)
-      | .panic m => out := out.push ("panic:" ++ m); break
+      | .panic m => return (out.push ("panic:" ++ m)).toList
       | .fuel => out := out.push "fuel"; break
     | ["de", n, v] =>
       match directCodec_Encode fuel (BitVec.ofNat 8 (nat n)) g (u32 v) with
       | .ok (err, g') => g := g'; out := out.push (encObs err g)
-      | .panic m => out := out.push ("panic:" ++ m); break
+      | .panic m => return (out.push ("panic:" ++ m)).toList
       | .fuel => out := out.push "fuel"; break
     | ["le", l, ps] =>
       match lengthCodec_Encode fuel es.lc g (u32 l) (u32 ps) with
       | .ok (err, lc, g') => g := g'; es := { es with lc := lc }; out := out.push (encObs err g)
-      | .panic m => out := out.push ("panic:" ++ m); break
+      | .panic m => return (out.push ("panic:" ++ m)).toList
       | .fuel => out := out.push "fuel"; break
     | ["De", dist, l] =>
       match distCodec_Encode fuel es.dc g (u32 dist) (u32 l) with
       | .ok (err, dc, g') => g := g'; es := { es with dc := dc }; out := out.push (encObs err g)
-      | .panic m => out := out.push ("panic:" ++ m); break
+      | .panic m => return (out.push ("panic:" ++ m)).toList
+      | .fuel => out := out.push "fuel"; break
+    | ["Le", sy, stt, mb, ls] =>
+      match literalCodec_Encode fuel es.lit g (BitVec.ofNat 8 (nat sy)) (u32 stt) (BitVec.ofNat 8 (nat mb)) (u32 ls) with
+      | .ok (err, c, g') => g := g'; es := { es with lit := c }; out := out.push (encObs err g)
+      | .panic m => return (out.push ("panic:" ++ m)).toList
+      | .fuel => out := out.push "fuel"; break
+    | ["Ld", stt, mb, ls] =>
+      match literalCodec_Decode 200 ds.lit d (u32 stt) (BitVec.ofNat 8 (nat mb)) (u32 ls) with
+      | .ok (v, err, c, d') => d := d'; ds := { ds with lit := c }; out := out.push (decObs err (BitVec.setWidth 32 v) d)
+      | .panic m => return (out.push ("panic:" ++ m)).toList
       | .fuel => out := out.push "fuel"; break
     | ["close"] =>
       match rangeEncoder_Close fuel g with
       | .ok (err, g') => g := g'; out := out.push (encObs err g)
-      | .panic m => out := out.push ("panic:" ++ m); break
+      | .panic m => return (out.push ("panic:" ++ m)).toList
       | .fuel => out := out.push "fuel"; break
     | ["open"] =>
       match newRangeDecoder 8 { inp := g.lbw.BW.out } with
@@ -228,32 +240,32 @@ def codecScript (limit : Nat) (steps : List (List String)) : List String := Id.r
           return out.toList
         d := d'
         out := out.push s!"open nil {d.nrange.toNat} {d.code.toNat} {d.br.inp.length}"
-      | .panic m => out := out.push ("panic:" ++ m); break
+      | .panic m => return (out.push ("panic:" ++ m)).toList
       | .fuel => out := out.push "fuel"; break
     | ["td", k] =>
       match treeCodec_Decode 200 (ds.t.getD (nat k) default) d with
       | .ok (v, err, tc, d') => d := d'; ds := { ds with t := ds.t.setIfInBounds (nat k) tc }; out := out.push (decObs err v d)
-      | .panic m => out := out.push ("panic:" ++ m); break
+      | .panic m => return (out.push ("panic:" ++ m)).toList
       | .fuel => out := out.push "fuel"; break
     | ["rd", k] =>
       match treeReverseCodec_Decode 200 (ds.r.getD (nat k) default) d with
       | .ok (v, err, tc, d') => d := d'; ds := { ds with r := ds.r.setIfInBounds (nat k) tc }; out := out.push (decObs err v d)
-      | .panic m => out := out.push ("panic:" ++ m); break
+      | .panic m => return (out.push ("panic:" ++ m)).toList
       | .fuel => out := out.push "fuel"; break
     | ["dd", n] =>
       match directCodec_Decode 200 (BitVec.ofNat 8 (nat n)) d with
       | .ok (v, err, d') => d := d'; out := out.push (decObs err v d)
-      | .panic m => out := out.push ("panic:" ++ m); break
+      | .panic m => return (out.push ("panic:" ++ m)).toList
       | .fuel => out := out.push "fuel"; break
     | ["ld", ps] =>
       match lengthCodec_Decode 200 ds.lc d (u32 ps) with
       | .ok (v, err, lc, d') => d := d'; ds := { ds with lc := lc }; out := out.push (decObs err v d)
-      | .panic m => out := out.push ("panic:" ++ m); break
+      | .panic m => return (out.push ("panic:" ++ m)).toList
       | .fuel => out := out.push "fuel"; break
     | ["Dd", l] =>
       match distCodec_Decode 200 ds.dc d (u32 l) with
       | .ok (v, err, dc, d') => d := d'; ds := { ds with dc := dc }; out := out.push (decObs err v d)
-      | .panic m => out := out.push ("panic:" ++ m); break
+      | .panic m => return (out.push ("panic:" ++ m)).toList
       | .fuel => out := out.push "fuel"; break
     | _ => out := out.push "bad-token"
   out := out.push ("out=" ++ hexOf g.lbw.BW.out)
